@@ -383,6 +383,11 @@ def runQuery (T : STree) (nm : Naming) (inp : Input) (H? : Option Ham) (q : SExp
     match loadFiltered T nm inp (decFilter r) with
     | .error e => o.put (pfx ++ "load") ("err:" ++ e.toStr)
     | .ok Hf => emitLoad pfx Hf (o.put (pfx ++ "load") "ok")
+  | .list [.atom "tphog", .str k], some H =>
+    -- per-family profile of an arbitrary HOG of the analysis (not only top-level ones)
+    match H.allLocs.find? (fun l => nodeKeyS l.node == k) with
+    | some l => o.put "tphogsub" (k ++ "|" ++ " ".intercalate ((profileHog H l.node).map featS))
+    | none => o.put "tphogsub" (k ++ "|nokey")
   | .list [.atom "oma"], _ =>
     -- the same file loaded with species_resolve_mode="OMA"
     match loadOMA T nm inp with
